@@ -84,7 +84,8 @@ fn main() {
         "tzscan" => {
             let seed: u64 = args.get(2).and_then(|s| s.parse().ok()).unwrap_or(1);
             let n: usize = args.get(3).and_then(|s| s.parse().ok()).unwrap_or(1000);
-            c09::tzscan(seed, n);
+            let n_composed: usize = args.get(4).and_then(|s| s.parse().ok()).unwrap_or(200);
+            c09::tzscan(seed, n, n_composed);
             runq::cleanup_tmp();
         }
         "tables" => {
